@@ -109,18 +109,22 @@ OnRetry(s, e) ==
 \* address occupied from the start (0 = free), e.cancel = when the task was cancelled, e.ready = when it reported ready
 \* (-1 never), e.ret = when Run returned (-1 = not within the deadline), e.served = a request made after readiness was
 \* answered by the configured handler, e.alive = the configured handler still answered after Run had returned.
-\* Attempts are made at 0, 3 s, 6 s, ...; the one that succeeds is the first at or after e.busy.
+\* Attempts are made at 0, 3 s, 6 s, ...; the one that succeeds is the first after e.busy.
 HttpSlack == 2500
 OnHttp(s, e) ==
-  LET T == ((e.busy + 2999) \div 3000) * 3000              \* instant of the first attempt that can succeed
+  LET Tmin == ((e.busy + 2999) \div 3000) * 3000           \* earliest attempt that can succeed
+      Tmax == IF e.busy = 0 THEN 0 ELSE (e.busy \div 3000 + 1) * 3000   \* the attempt that must (an attempt at the very
+                                                                       \* instant the address is let go may go either way)
+      \* all 40 attempts (the last one at 117 s) found the address occupied: the task ends with an error, on its own
+      exh == e.err /\ e.ready < 0 /\ e.busy >= 117000 /\ e.ret >= 117000 /\ e.cancel >= 117000
       f1 == IF e.ready >= 0 /\ e.ready < e.busy THEN {"c20-http-ready-while-address-unavailable"} ELSE {}
       f2 == IF e.busy > 0 /\ e.ready >= 0 /\ e.ready < 3000 THEN {"c20-http-listen-retried-before-3s"} ELSE {}
-      f3 == IF e.cancel > T + HttpSlack /\ (e.ready < 0 \/ e.ready > T + HttpSlack) THEN {"c20-http-not-ready-although-address-free"} ELSE {}
+      f3 == IF e.cancel > Tmax + HttpSlack /\ (e.ready < 0 \/ e.ready > Tmax + HttpSlack) /\ ~exh THEN {"c20-http-not-ready-although-address-free"} ELSE {}
       f4 == IF e.ready >= 0 /\ e.ready < e.cancel /\ ~e.served THEN {"c20-http-ready-but-not-serving-the-handler"} ELSE {}
-      f5 == IF e.cancel < T /\ e.ready >= 0 THEN {"c20-http-started-after-cancellation"} ELSE {}
-      f6 == IF e.ret < 0 \/ e.ret > e.cancel + HttpSlack THEN {"c20-http-stop-not-prompt"} ELSE {}
-      f7 == IF e.ret >= 0 /\ e.err THEN {"c20-http-stop-reported-an-error"} ELSE {}
+      f5 == IF e.cancel < Tmin /\ e.ready >= 0 THEN {"c20-http-started-after-cancellation"} ELSE {}
+      f6 == IF e.ret < 0 \/ (e.ret > e.cancel + HttpSlack /\ ~exh) THEN {"c20-http-stop-not-prompt"} ELSE {}
+      f7 == IF e.ret >= 0 /\ e.err /\ ~exh THEN {"c20-http-stop-reported-an-error"} ELSE {}
       f8 == IF e.alive THEN {"c20-http-still-serving-after-return"} ELSE {}
-      f9 == IF e.ret >= 0 /\ e.ret < e.cancel THEN {"c20-http-returned-before-cancellation"} ELSE {}
+      f9 == IF e.ret >= 0 /\ e.ret < e.cancel /\ ~exh THEN {"c20-http-returned-before-cancellation"} ELSE {}
   IN [s EXCEPT !.bad = @ \cup f1 \cup f2 \cup f3 \cup f4 \cup f5 \cup f6 \cup f7 \cup f8 \cup f9]
 =============================================================================
